@@ -267,9 +267,18 @@ def transportOpts (c : Case) : List TransportOpt :=
 def nearLimit (lim : Int) (x : Nat) : Bool :=
   decide (0 < lim) && decide (2 * lim < 5 * (x : Int)) && decide (4 * (x : Int) < 5 * lim)
 
+/-- uri format: some line of the file (a URI with its tag, a `[k: v]` line) comes near or beyond 64 KiB, the default token limit
+of the bufio.Scanner the uri decoder reads its lines with (the other three formats read lines of any length) -/
+def uriLineNear64k (c : Case) : Bool :=
+  c.f == .uri && c.items.any fun it =>
+    decide (it.ent.uri.length ≥ 65000) || it.hdrs.any fun kv => decide (kv.1.length + kv.2.length ≥ 65000)
+
 def handleRun (c : Case) (impl : String) : String × String :=
   if impl.startsWith "ENV" then ("-", "skip:env")
   else if impl.startsWith "BAD-INPUT" then ("-", "skip:bad-input")
+  else if uriLineNear64k c ∧ (impl.splitOn " run=err ").length > 1 then
+    -- no prediction (the model has no such limit: it describes the repaired decoder, fixes/C09-uri-long-lines.diff)
+    ("-", "fail:uri-line-64k:the uri decoder refuses an ammo line of 64 KiB or more (bufio.Scanner: token too long) that the uripost, raw and http/json decoders deliver")
   else
   match decodeAll c.conf with
   | .error _ => ("provider-err", "skip:malformed-option")
@@ -287,6 +296,10 @@ def handleRun (c : Case) (impl : String) : String × String :=
     -- tunnel end for the decoy
     if c.shared ≠ 0 ∧ c.par then ("-", "skip:shared-client-parallel") else
     if c.redir ∧ c.rspRedir ∧ c.gun ≠ .http then ("-", "skip:followed-redirect-through-h2-or-tunnel") else
+    -- a followed redirect makes the gun's transport hold a connection to a SECOND host: with `max-idle-conns: 1` (all hosts
+    -- together) the idle connection to the target is evicted by the decoy's — the operator's own two demands, not modelled
+    if c.redir && c.rspRedir && (c.mic == some 1) then
+      ("-", "skip:followed-redirect-with-one-idle-connection-for-all-hosts") else
     let shots := reqs.map (shoot g)
     let names := (confH.map (·.1)) ++ (shots.flatMap fun s => s.header.map (·.1))
     if c.gun = .http2 ∧ names.any isH2Awkward then ("-", "skip:h2-connection-specific-or-cookie-header") else
@@ -303,6 +316,9 @@ def handleRun (c : Case) (impl : String) : String × String :=
     if c.gun = .http2 ∧ (c.mic.isSome ∨ c.mich.isSome ∨ c.rht.isSome) then ("-", "skip:h2-pool-options-not-modelled") else
     -- x/net/http2 arms its idle timer with any non-zero IdleConnTimeout: a negative one closes every connection at once
     if c.gun = .http2 ∧ tr.idleConnTimeout < 0 then ("-", "skip:h2-negative-idle-timeout") else
+    -- an answer lost to the response-header timeout is not followed to the host it redirects to
+    if c.redir && c.rspRedir && flights.any (fun f => f.arrived && responseLost tr f.delay) then
+      ("-", "skip:followed-redirect-with-lost-answers") else
     if (impl.splitOn " tm=late ").length > 1 then ("-", "skip:inconclusive-timing") else
     if flights.any (fun f => f.arrived && (nearLimit tr.idleConnTimeout f.pause || nearLimit tr.responseHeaderTimeout f.delay))
       then ("-", "skip:inconclusive-timing-margin") else
